@@ -1703,13 +1703,22 @@ gd_entry_t *_GD_ParseFieldSpec(DIRFILE *restrict D,
         if (strcmp(in_cols[1], "RAW") == 0) {
           E = _GD_ParseRaw(D, p, in_cols, n_cols, P, me);
 
+          /* the fragment (directory, encoding) must be known before the data
+           * file is created */
+          if (E)
+            E->fragment_index = me;
+
           /* Create the binary file, if requested */
           if (!D->error && creat) {
             /* If this fragment is protected, we can't do anything */
             if (D->fragment[me].protection != GD_PROTECT_NONE)
               _GD_SetError(D, GD_E_PROTECTED, GD_E_PROTECTED_DATA, NULL, 0,
                   D->fragment[me].cname);
-            else
+            else if (insert && _GD_FindField(D, E->field, E->e->len, D->entry,
+                  D->n_entries, 0, NULL))
+            {
+              ; /* a duplicate, rejected below: don't create a data file */
+            } else
               _GD_InitRawIO(D, E, NULL, -1, NULL, 0,
                   GD_FILE_WRITE | GD_FILE_TOUCH, _GD_FileSwapBytes(D, E));
 
